@@ -233,15 +233,17 @@ func (e *fnEnc) bufWrite(v ssa.Value, name string, args []string, sig *types.Sig
 	lenH, dataH := e.heap(bufLenKey), e.heap(bufDataKey)
 	oldLen := fmt.Sprintf("(select %s %s)", lenH, b)
 	oldData := fmt.Sprintf("(select %s %s)", dataH, b)
+	e.vc.nfresh++
+	bv := fmt.Sprintf("q!bj!%d", e.vc.nfresh)
 	var n, src string // appended length and accessor for byte i of the source
 	switch name {
 	case "(*bytes.Buffer).Write":
 		row := fmt.Sprintf("(select %s (c-ref %s))", e.heap(e.S().ElemKey(types.Typ[types.Uint8])), args[1])
 		n = fmt.Sprintf("(c-len %s)", args[1])
-		src = fmt.Sprintf("(select %s (+ (c-off %s) j))", row, args[1])
+		src = fmt.Sprintf("(select %s (+ (c-off %s) %s))", row, args[1], bv)
 	case "(*bytes.Buffer).WriteString":
 		n = fmt.Sprintf("(s-len %s)", args[1])
-		src = fmt.Sprintf("(select (s-base %s) (+ (s-off %s) j))", args[1], args[1])
+		src = fmt.Sprintf("(select (s-base %s) (+ (s-off %s) %s))", args[1], args[1], bv)
 	case "(*bytes.Buffer).WriteByte":
 		n = "1"
 		src = args[1]
@@ -252,13 +254,13 @@ func (e *fnEnc) bufWrite(v ssa.Value, name string, args []string, sig *types.Sig
 		src = ""
 	}
 	newData := e.vc.fresh("bufdata", "(Array Int Int)")
-	e.vc.assume(fmt.Sprintf("(forall ((j Int)) (! (=> (and (<= 0 j) (< j %s)) (= (select %s j) (select %s j))) :pattern ((select %s j))))", oldLen, newData, oldData, newData))
+	e.vc.assume(fmt.Sprintf("(forall ((%s Int)) (! (=> (and (<= 0 %s) (< %s %s)) (= (select %s %s) (select %s %s))) :pattern ((select %s %s))))", bv, bv, bv, oldLen, newData, bv, oldData, bv, newData, bv))
 	if src != "" {
-		srcAt := strings.ReplaceAll(src, " j)", fmt.Sprintf(" (- j %s))", oldLen))
+		srcAt := strings.ReplaceAll(src, " "+bv+")", fmt.Sprintf(" (- %s %s))", bv, oldLen))
 		if name == "(*bytes.Buffer).WriteByte" {
 			srcAt = src
 		}
-		e.vc.assume(fmt.Sprintf("(forall ((j Int)) (! (=> (and (<= %s j) (< j (+ %s %s))) (= (select %s j) %s)) :pattern ((select %s j))))", oldLen, oldLen, n, newData, srcAt, newData))
+		e.vc.assume(fmt.Sprintf("(forall ((%s Int)) (! (=> (and (<= %s %s) (< %s (+ %s %s))) (= (select %s %s) %s)) :pattern ((select %s %s))))", bv, oldLen, bv, bv, oldLen, n, newData, bv, srcAt, newData, bv))
 	}
 	e.setHeap(bufLenKey, fmt.Sprintf("(store %s %s (+ %s %s))", lenH, b, oldLen, n))
 	e.setHeap(bufDataKey, fmt.Sprintf("(store %s %s %s)", dataH, b, newData))
